@@ -233,7 +233,15 @@ pub fn walk_plain(sc: &Scenario, hist: &[Ev], opts: &WalkOpts) -> Vec<Mismatch> 
                         check(Some(Ret::Skipped), false, token, false);
                         continue;
                     }
-                    let m = sc.plan.by_token.get(token).and_then(|p| StreamModel::open(p, *adapter, mods.timeout_ms));
+                    let mut m = sc.plan.by_token.get(token).and_then(|p| StreamModel::open(p, *adapter, mods.timeout_ms));
+                    if abandoned.contains(token) {
+                        // a stream abandoned from another handle (generator's convention: everything from the first
+                        // item with a gap of 40 ms or more comes after the abandon): what was sent before is delivered,
+                        // then the stream fails; the late items reach nobody
+                        if let Some(mm) = m.as_mut() {
+                            mm.abandon_from_elsewhere(40);
+                        }
+                    }
                     streams.insert(*slot, m.map(|m| (m, token.clone())));
                     check(Some(Ret::Opened), false, token, false);
                 }
@@ -553,7 +561,11 @@ pub fn check_c13(sc: &Scenario, rr: &RunResult) -> Vec<Violation> {
             }
         }
     }
-    // abandon clauses
+    // abandon clauses (the interpreter resolves "the ID of that operation" from the server's log, which lags behind
+    // while the peer has stopped reading: not in runs with a stalled peer)
+    if sc.knobs.write_stall.is_some() {
+        return v;
+    }
     let rets = returns_by_step(&rr.hist);
     let mut abandons_seen: Vec<i64> = rr.requests.iter().filter_map(|q| if let crate::msg::ReqOp::Abandon { id } = &q.op { Some(*id) } else { None }).collect();
     for (c, cs) in sc.clients.iter().enumerate() {
@@ -1239,6 +1251,45 @@ pub fn residue(prop: &str, clause: &str, sc: &Scenario, rr: &RunResult) -> Vec<V
 }
 
 /// C12: timeouts. Family TIME.
+/// A next() on a paged stream opened with a per-item timeout T waits at most for the end of the page, the submission
+/// of the follow-up request and the first item of the next page - each under a timer of T.
+fn paged_next_bound(sc: &Scenario, rr: &RunResult) -> Vec<Violation> {
+    let mut v = vec![];
+    let rets = returns_by_step(&rr.hist);
+    let invs = invokes_by_step(&rr.hist);
+    for (c, cs) in sc.clients.iter().enumerate() {
+        let mut timed: BTreeMap<usize, u64> = BTreeMap::new();
+        for (ix, st) in cs.steps.iter().enumerate() {
+            match st {
+                Step::Open { slot, adapter, mods, .. } => {
+                    let paged = matches!(adapter, crate::scenario::Adapter::Paged(_) | crate::scenario::Adapter::EntriesOnlyPaged(_) | crate::scenario::Adapter::PagedEntriesOnly(_));
+                    match (paged, mods.timeout_ms) {
+                        (true, Some(t)) if t < u64::MAX / 8 => {
+                            timed.insert(*slot, t);
+                        }
+                        _ => {
+                            timed.remove(slot);
+                        }
+                    }
+                }
+                Step::Next { slot, .. } => {
+                    let Some(t) = timed.get(slot) else { continue };
+                    let (Some(r), Some(i)) = (rets.get(&(c, ix)), invs.get(&(c, ix))) else { continue };
+                    if *r.0 == Ret::Skipped {
+                        continue;
+                    }
+                    let took = r.2.saturating_sub(i.0);
+                    if took > 3 * *t {
+                        v.push(Violation::new("C12", "C12.b", "next/paged/returns-after-more-than-three-timeouts", format!("client {c} step {ix}: next() on a paged stream with a timeout of {t}ms returned after {took}ms ({})", clip(&format!("{:?}", r.0)))));
+                    }
+                }
+                _ => {}
+            }
+        }
+    }
+    v
+}
+
 pub fn check_c12(sc: &Scenario, rr: &RunResult) -> Vec<Violation> {
     let mut v = check_clean_run("C12", rr);
     if !v.is_empty() {
@@ -1253,6 +1304,7 @@ pub fn check_c12(sc: &Scenario, rr: &RunResult) -> Vec<Violation> {
         };
         v.push(Violation::new("C12", clause, format!("{}/{}/{}", m.what, m.ctx, m.kind), format!("client {} step {}: {}", m.client, m.step, m.detail)));
     }
+    v.extend(paged_next_bound(sc, rr));
     v.extend(residue("C12", "C12.e", sc, rr));
     v
 }
@@ -2325,14 +2377,24 @@ pub fn check_c14(sc: &Scenario, rr: &RunResult) -> Vec<Violation> {
                 // operations and search() either fail (any connection-loss error, or a timeout) in both runs or
                 // are refused locally in both; a next() that was waiting when the connection went away fails in both.
                 // (Abandon, unbind and streaming_search succeed or fail depending on whether the driver has gone yet.)
+                // Once an earlier call has failed with a connection-loss error in BOTH runs, the driver is gone in
+                // both: from then on a query that goes through the driver (peer certificate) fails in both.
+                let loss_seen_by_both = (0..ix).any(|j| ra.get(&(0, j)).map_or(false, |x| lost(x.0)) && rsy.get(&(0, j)).map_or(false, |x| lost(x.0)));
                 let comparable = match st {
                     Step::Op { op, .. } => !matches!(op, OpSpec::Unbind | OpSpec::Abandon(_)),
                     Step::Next { .. } => ix == k,
+                    Step::ProbeCert => loss_seen_by_both,
                     _ => false,
                 };
                 if let (Some(a), Some(s)) = (a, s) {
                     let norm = |r: &Ret| if lost(r) || matches!(r, Ret::Err(crate::world::ErrC::Timeout)) { "failed" } else { ret_class(r) };
-                    let (ca, cs) = (norm(a.0), norm(s.0));
+                    let (mut ca, mut cs) = (norm(a.0), norm(s.0));
+                    if let (Ret::Cert(x), Ret::Cert(y)) = (a.0, s.0) {
+                        if x != y {
+                            ca = "certificate-query-a";
+                            cs = "certificate-query-b";
+                        }
+                    }
                     if comparable && ca != cs {
                         v.push(Violation::new("C14", "C14.value", format!("{what}/connection-lost/async-{ca}-sync-{cs}"), format!("step {ix}: async {} sync {}", clip(&format!("{:?}", a.0)), clip(&format!("{:?}", s.0)))));
                     }
@@ -2443,7 +2505,46 @@ pub fn check_c11(sc: &Scenario, rr: &RunResult) -> Vec<Violation> {
         }
     };
     let announced_end = announced_end.filter(|e| *e <= rr.s2c.len());
-    let exempt = announced_end.is_none();
+    // What is left of the item behind its first element (a bit flip in a length octet splits it) starts the next
+    // frame as far as a BER reader can tell, and so on: walk the outer headers to the end of everything the server
+    // ever sent. If some header on the way announces more than that (or is itself incomplete), waiting is legitimate.
+    let frame_end_at = |pos: usize| -> Option<usize> {
+        let b = &rr.s2c[pos..];
+        if b.len() < 2 {
+            return None;
+        }
+        if b[1] < 0x80 {
+            Some(pos + 2 + b[1] as usize)
+        } else if b[1] == 0x80 {
+            Some(pos + 2)
+        } else {
+            let n = (b[1] & 0x7f) as usize;
+            if b.len() < 2 + n {
+                return None;
+            }
+            let mut len: u128 = 0;
+            for &x in &b[2..2 + n] {
+                len = (len << 8) | x as u128;
+                if len > (1u128 << 62) {
+                    return None;
+                }
+            }
+            Some(pos + 2 + n + len as usize)
+        }
+    };
+    let mut exempt = announced_end.is_none();
+    if !exempt {
+        let mut pos = hs;
+        while pos < rr.s2c.len() {
+            match frame_end_at(pos) {
+                Some(e) if e <= rr.s2c.len() && e > pos => pos = e,
+                _ => {
+                    exempt = true;
+                    break;
+                }
+            }
+        }
+    }
     let t_all = rr.hist.iter().filter_map(|e| if let EvKind::NetDeliver { .. } = &e.kind { Some(e.t_ms) } else { None }).max().unwrap_or(0);
     let _ = total;
     if !exempt && v.is_empty() {
@@ -2713,7 +2814,7 @@ pub fn check_c17(sc: &Scenario, rr: &RunResult) -> Vec<Violation> {
     }
     let ok = o.outcome == "ok";
     let starttls_scheme = c.scheme == "ldap";
-    let good_starttls = !starttls_scheme || matches!(starttls, StartTlsResp::Success | StartTlsResp::SuccessPlusInjected);
+    let good_starttls = !starttls_scheme || matches!(starttls, StartTlsResp::Success | StartTlsResp::SuccessPlusInjected | StartTlsResp::NoticeThenSuccess);
     let cert_ok = c.trust_ca && c.host == HostForm::Name;
     let unix_stream = c.std_stream == crate::estab::StdKind::Unix;
     let must_err = unix_stream || !good_starttls || *tls != TlsBehaviour::Good || (!cert_ok && !c.no_tls_verify);
@@ -2975,6 +3076,7 @@ pub fn check_c04_real(sc: &Scenario, rr: &RunResult) -> Vec<Violation> {
         Ending::PeerReset { .. } => "peer-reset",
         Ending::PeerGarbage { .. } => "peer-garbage",
         Ending::PeerCloseIdle => "peer-close-idle",
+        Ending::PeerCloseAtAccept => "peer-close-at-accept",
     };
     let ctx = format!("{:?}/{}/{}", case.transport, if case.sync_api { "sync" } else { "async" }, ending);
     let mut bad = |clause: &str, what: &str, detail: String| v.push(Violation::new("C04", clause, format!("real/{ctx}/{what}"), format!("{detail} [{:?}] observed {:?}", case, obs)));
@@ -3031,7 +3133,7 @@ pub fn check_c04_real(sc: &Scenario, rr: &RunResult) -> Vec<Violation> {
                 bad(if obs.later == "hang" { "C04.a" } else { "C04.d" }, "operation-after-the-failure", format!("an operation started after the connection had failed returned {}", obs.later));
             }
         }
-        Ending::PeerCloseIdle => {
+        Ending::PeerCloseIdle | Ending::PeerCloseAtAccept => {
             if obs.later != "err" {
                 bad(if obs.later == "hang" { "C04.a" } else { "C04.d" }, "operation-after-the-failure", format!("an operation started after the server had closed returned {}", obs.later));
             }
